@@ -193,6 +193,12 @@ func runC09(env *Env) {
 	}
 	r := env.Rng
 	emit := func(c string) { env.Emit("C09 "+c, runHist(strings.Fields(c))) }
+	// other exporting processes of the same program keep sending during every session (noise.go)
+	stopNoise := startNoise(2)
+	defer func() {
+		stopNoise()
+		env.Count(fmt.Sprintf("noise/other-exporters-sends>=%d", (noiseSends/1000)*1000))
+	}()
 	strT := oneFieldTpl(300, entities.String, 5)
 	// every message size 65519..65540 exactly, on both transports, followed by a valid send
 	for _, proto := range []string{"tcp", "udp"} {
